@@ -651,6 +651,18 @@ func (g *histGen) start(kind int) []string {
 		return []string{"0", "-", fHex(r.validMessage(6, 80))}
 	case 3: // decoded message with trailing bytes after the declared length
 		return []string{"0", "-", fHex(append(r.validMessage(5, 40), r.bytes(r.rangeIn(1, 12))...))}
+	case 5: // a datagram whose last attribute lacks its padding (the declared length ends right after the value,
+		// or claims the padding that is not there): the decode fails; what is built afterwards is still well formed
+		d := r.validMessage(3, 30)
+		l := r.pick([]int{1, 2, 3, 5, 6, 7, 9})
+		d = append(d, 0x80, 0x30, 0, byte(l))
+		d = append(d, r.bytes(l)...)
+		body := len(d) - 20
+		if r.chance(1, 3) {
+			body = pad4(body)
+		}
+		d[2], d[3] = byte(body>>8), byte(body)
+		return []string{"0", "-", fHex(d)}
 	default: // poisoned previous buffer of assorted size, then optionally a decode
 		n := r.pick([]int{1, 19, 20, 21, 60, 120, 300, 2000})
 		prev := fill(r, n, 1+r.intn(2))
@@ -678,19 +690,38 @@ func runC03(o *out, thorough bool, r *rng, _ []string) map[string]interface{} {
 		o.run(301, append(st, ops...), true)
 		o.count("huge-value-histories")
 	}
+	// caller-sized buffers: EVERY capacity 0..100 (so that the buffer ends inside a header, a value, a padding),
+	// poisoned, then a header and attributes whose values need 1..3 padding bytes
+	for c := 0; c <= 100; c++ {
+		for _, l := range []int{1, 2, 3, 5} {
+			st := []string{"0", fHex(bytes.Repeat([]byte{0xEE}, c)), "-"}
+			if c == 0 {
+				st = []string{"0", "-", "-"}
+			}
+			ops := []string{numsField(1, 1), numsField(1, 1, 0), withBytes([]int{4, 0x8030}, r.bytes(l)),
+				withBytes([]int{4, 0x8031}, r.bytes(l+4)), "7," + withBytes([]int{4, 3}, r.bytes(l)), numsField(3)}
+			o.run(301, append(st, ops...), true)
+			o.count("capacity-sweep-histories")
+		}
+	}
 	g := &histGen{r: r}
 	n := 2500
 	if thorough {
 		n = 40000
 	}
 	for i := 0; i < n; i++ {
-		kind := []int{0, 0, 1, 2, 2, 3, 4}[r.intn(7)]
+		kind := []int{0, 0, 1, 2, 2, 3, 4, 5}[r.intn(8)]
 		st := g.start(kind)
 		var ops []string
 		if kind <= 1 || kind == 4 {
 			// a history about building starts with Build, WriteHeader or Encode
 			first := r.pick([]int{1, 2, 3})
 			ops = g.history(1, 400, []int{first})
+		}
+		if kind == 5 {
+			// after a FAILED decode the Message is in no state the property speaks about (Length and the
+			// attribute list are whatever the decoder had got to): only Build, which resets, starts a history
+			ops = g.history(1, 400, []int{1})
 		}
 		maxVal := 400
 		if i%20 == 0 {
